@@ -159,8 +159,19 @@ def x_atan2(e, st, args, kwargs):
 
 def x_time(e, st, args, kwargs):
     """wall clock: ghost real `$now` (seconds), constant during one call of a function under contract"""
-    e.used_assumptions.add("time source: one ghost real `now` per verified call (the clock does not advance inside a call)")
-    yield st, z3.Real("$now")
+    e.used_assumptions.add("time source: one ghost real `now` per verified call, advanced only by time.sleep")
+    slept = st.ghost.get("#slept")
+    yield st, (z3.Real("$now") + slept[0] if slept else z3.Real("$now"))
+
+
+def x_sleep(e, st, args, kwargs):
+    e.used_assumptions.add("time.sleep(d) advances the ghost clock by exactly d seconds")
+    d = e.to_real(args[0])
+    neg = d < 0
+    if e.feasible(st.pc, neg):
+        yield st.assume(neg), RaiseV(e.exc("ValueError", "sleep length must be non-negative"))
+    if e.feasible(st.pc, z3.Not(neg)):
+        yield st.assume(z3.Not(neg)).ghost_count("slept", d), NONE
 
 
 def x_uniform(e, st, args, kwargs):
@@ -243,7 +254,7 @@ def install_default_models(e):
         "typing.cast": x_cast, "dataclasses.replace": x_replace, "collections.deque": x_deque,
         "math.trunc": x_trunc, "math.atan2": x_atan2, "math.floor": lambda e, st, a, k: iter([(st, e.T.floor_real(e.to_real(a[0])))]),
         "dateutil.parser.parse": x_dateutil_parse, "dateutil.parser.parser.parse": x_dateutil_parse,
-        "random.uniform": x_uniform, "random.randint": x_randint, "time.time": x_time,
+        "random.uniform": x_uniform, "random.randint": x_randint, "time.time": x_time, "time.sleep": x_sleep,
         "flexstack.utils.time_service:TimeService.time": x_time,
     })
 
